@@ -17,11 +17,13 @@ import traceback
 from typing import Any, Callable
 
 ROOT = os.path.dirname(os.path.dirname(os.path.abspath(__file__)))
+# evidence/replay output root: /verif itself, except for self-tests on scratch copies
+OUT = os.environ.get("PYVC_OUT", ROOT)
 
 
 class Unit:
     def __init__(self, uid: str, fn: Callable[[Any], None], setup: Callable | None = None,
-                 max_paths: int = 4000, query_timeout_ms: int = 20000, bounded: str = ""):
+                 max_paths: int = 4000, query_timeout_ms: int = 90000, bounded: str = ""):
         self.uid = uid
         self.fn = fn
         self.setup = setup
@@ -147,7 +149,7 @@ class Check:
         violations = 0
         known_hits: list[str] = []
         known_ob = 0
-        os.makedirs(os.path.join(ROOT, "replay", self.prop), exist_ok=True)
+        os.makedirs(os.path.join(OUT, "replay", self.prop), exist_ok=True)
         seen: set[str] = set()
         for u, o in failed + undecided:
             oid = f"{u}::{o['name']}"
@@ -232,7 +234,7 @@ class Check:
         return rc
 
     def write_replay(self, unit: str, o: dict, model: Any, msg: str, reproduced: bool) -> str:
-        path = os.path.join(ROOT, "replay", self.prop, sanitize(f"{unit}__{o['name']}") + ".py")
+        path = os.path.join(OUT, "replay", self.prop, sanitize(f"{unit}__{o['name']}") + ".py")
         body = f'''#!/usr/bin/env python3
 """Replay of a failed proof obligation.
 
@@ -250,7 +252,8 @@ replay output when written:
 {msg}
 """
 import os, sys
-ROOT = os.path.dirname(os.path.dirname(os.path.dirname(os.path.abspath(__file__))))
+ROOT = os.environ.get("PYVC_ROOT") or os.path.dirname(os.path.dirname(os.path.dirname(
+    os.path.abspath(__file__))))
 sys.path.insert(0, ROOT)
 UNIT = {unit!r}
 OBLIGATION = {o['name']!r}
@@ -317,6 +320,6 @@ if __name__ == "__main__":
         ev = {"property_id": self.prop, "tier": self.tier, "seed": self.seed,
               "level": self.level, "coverage": cov, "assumptions": self.assumptions,
               "wall_s": round(time.time() - self.t0, 2), "violations": violations}
-        os.makedirs(os.path.join(ROOT, "evidence"), exist_ok=True)
-        with open(os.path.join(ROOT, "evidence", f"{self.prop}.json"), "w") as f:
+        os.makedirs(os.path.join(OUT, "evidence"), exist_ok=True)
+        with open(os.path.join(OUT, "evidence", f"{self.prop}.json"), "w") as f:
             json.dump(ev, f, indent=1, default=str)
